@@ -333,9 +333,35 @@ def gen_case(rng, small: bool = False) -> Dict[str, Any]:
             pass
         plans.append(plan)
         seen |= set(nums)
+    # physical shape of individual objects (all valid, all must read the same)
+    layouts = []
+    lay_mode = rng.random()
+    for rv in revs:
+        lays = {}
+        for n, v in rv["defs"].items():
+            if lay_mode < 0.35:
+                continue
+            lay = {}
+            if rng.random() < 0.3:
+                lay["compact"] = True
+            if rng.random() < 0.2:
+                lay["endobj_same"] = True
+            if rng.random() < 0.1:
+                lay["comment"] = True
+            if v[0] == "S":
+                if rng.random() < 0.5:
+                    lay["endstream_eol"] = False
+                if rng.random() < 0.3:
+                    lay["skw_crlf"] = True
+                if rng.random() < 0.3:
+                    lay["length_ref"] = True
+                    lay["length_first"] = rng.random() < 0.4
+            if lay:
+                lays[n] = lay
+        layouts.append(lays)
     eol = rng.choice(["\n", "\n", "\r\n", "\r"])
     entry_eol = {"\n": rng.choice([" \n", " \n", "\r\n", " \r"]), "\r\n": "\r\n", "\r": " \r"}[eol]
-    return {"revs": revs, "plans": plans, "gens": gens, "eol": eol, "entry_eol": entry_eol,
+    return {"revs": revs, "plans": plans, "gens": gens, "eol": eol, "entry_eol": entry_eol, "layouts": layouts,
             "tail": rng.choice(["normal", "normal", "noeol", "blank", "spaces"]),
             "aux_gap": rng.choice([0, 0, 1, 5])}
 
@@ -355,7 +381,8 @@ def build(case: Dict[str, Any]) -> Tuple[bytes, Dict[str, Any], List[CW.Rev]]:
     maxn = max(max(r.defs) for r in revs)
     gens = {int(n): g for n, g in case["gens"].items()}
     data, layout = CW.write_history(revs, plans, eol=case["eol"].encode(), entry_eol=case["entry_eol"].encode(),
-                                    gens=gens, aux_base=maxn + 1 + case.get("aux_gap", 0), tail=case["tail"])
+                                    gens=gens, aux_base=maxn + 1 + case.get("aux_gap", 0), tail=case["tail"],
+                                    layouts=[{int(n): l for n, l in lays.items()} for lays in case.get("layouts", [])])
     return data, layout, revs
 
 
@@ -366,7 +393,7 @@ def ext_history(revs: List[CW.Rev], layout: Dict[str, Any]) -> List[Dict[int, st
     (object-stream containers, cross-reference streams) in the revision that wrote them."""
     hist = [{n: canon_pdf(v) for n, v in r.defs.items()} for r in revs]
     for o in layout["objects"]:
-        if o["kind"] in ("objstm", "xrefstm"):
+        if o["kind"] in ("objstm", "xrefstm", "lenobj"):
             hist[o["rev"]][o["n"]] = canon_pdf(o["val"])
     return hist
 
@@ -590,6 +617,8 @@ def shrink_case(case: Dict[str, Any], config: Tuple[int, bool], queries: List[in
                 if cut == "last":
                     c["revs"].pop()
                     c["plans"].pop()
+                    if c.get("layouts"):
+                        c["layouts"].pop()
                 else:
                     # merging revision 0 into revision 1 keeps the history meaningful
                     merged = dict(c["revs"][0]["defs"])
@@ -597,6 +626,11 @@ def shrink_case(case: Dict[str, Any], config: Tuple[int, bool], queries: List[in
                     c["revs"][1]["defs"] = merged
                     c["revs"].pop(0)
                     c["plans"].pop(0)
+                    if c.get("layouts"):
+                        lays = dict(c["layouts"][0])
+                        lays.update(c["layouts"][1])
+                        c["layouts"][1] = lays
+                        c["layouts"].pop(0)
                 budget -= 1
                 if fails(c):
                     cur = c
@@ -627,6 +661,16 @@ def shrink_case(case: Dict[str, Any], config: Tuple[int, bool], queries: List[in
                     continue
                 c = json.loads(json.dumps(cur))
                 c["plans"][k][key] = val
+                budget -= 1
+                if fails(c):
+                    cur = c
+                    changed = True
+        for k in range(len(cur.get("layouts", []))):
+            for n in list(cur["layouts"][k]):
+                if budget <= 0:
+                    break
+                c = json.loads(json.dumps(cur))
+                del c["layouts"][k][n]
                 budget -= 1
                 if fails(c):
                     cur = c
@@ -864,12 +908,38 @@ def gen_damaged(rng) -> Dict[str, Any]:
     extra = {str(n): gen_value(rng, 0, 30, allow_stream=True) for n in rng.sample(range(20, 31), rng.randint(0, 4))}
     damage = rng.choice(["startxref-num", "startxref-num", "startxref-nondigit", "table-line",
                          "table-header", "table-truncated", "xref-keyword", "table-offsets"])
+    # physical shape of the objects of the body (the body scan must cope with every valid one)
+    layouts: Dict[str, Dict[str, Any]] = {}
+    stream_nums = [str(10 + 2 * i) for i in range(len(texts))] + [k for k, v in extra.items() if v[0] == "S"]
+    mode = rng.random()
+    for n in ["1", "2", "3"] + [str(11 + 2 * i) for i in range(len(texts))] + list(extra) + stream_nums:
+        if mode < 0.3:
+            break
+        lay = dict(layouts.get(n, {}))
+        if rng.random() < 0.3:
+            lay["compact"] = True
+        if rng.random() < 0.2:
+            lay["endobj_same"] = True
+        if rng.random() < 0.1:
+            lay["comment"] = True
+        if n in stream_nums:
+            if rng.random() < 0.5:
+                lay["endstream_eol"] = False
+            if rng.random() < 0.3:
+                lay["skw_crlf"] = True
+            if rng.random() < 0.25:
+                lay["length_ref"] = True
+                lay["length_first"] = rng.random() < 0.4
+        if lay:
+            layouts[n] = lay
     return {"texts": texts, "extra": extra, "eol": rng.choice(["\n", "\r\n", "\r"]), "damage": damage,
-            "arg": rng.randint(0, 10 ** 6), "flate": rng.random() < 0.4}
+            "arg": rng.randint(0, 10 ** 6), "flate": rng.random() < 0.4, "layouts": layouts,
+            "order_seed": rng.choice([0, 0, rng.randint(1, 10 ** 6)]), "full": rng.random() < 0.7,
+            "gens": {k: rng.choice([1, 3]) for k in extra if extra[k][0] != "S" and rng.random() < 0.15}}
 
 
-def build_damaged(dc: Dict[str, Any]) -> Tuple[bytes, bytes, Dict[int, Any]]:
-    """Returns (intact file, damaged file, objects)."""
+def build_damaged(dc: Dict[str, Any]) -> Tuple[bytes, bytes, Dict[int, Any], Dict[str, Any]]:
+    """Returns (intact file, damaged file, objects a reader must see, layout of the intact file)."""
     import re
     import zlib
     contents = []
@@ -895,7 +965,14 @@ def build_damaged(dc: Dict[str, Any]) -> Tuple[bytes, bytes, Dict[int, Any]]:
     for i, c in enumerate(contents):
         plain[10 + 2 * i] = W.Stream({}, c)
     eol = dc["eol"].encode()
-    good = W.build_pdf(objs, 1, eol=eol)
+    plan = CW.Plan(form="table", head=True, full_index=dc.get("full", True), order_seed=dc.get("order_seed", 0))
+    ee = {"\n": b" \n", "\r\n": b"\r\n", "\r": b" \r"}[dc["eol"]]
+    good, layout = CW.write_history([CW.Rev(objs, 1, None)], [plan], eol=eol, entry_eol=ee,
+                                    gens={int(k): g for k, g in dc.get("gens", {}).items()},
+                                    layouts=[{int(n): l for n, l in dc.get("layouts", {}).items()}])
+    for o in layout["objects"]:
+        if o["kind"] == "lenobj":
+            plain[o["n"]] = o["val"]
     bad = bytearray(good)
     arg = dc["arg"]
     sx = good.rfind(b"startxref")
@@ -903,10 +980,17 @@ def build_damaged(dc: Dict[str, Any]) -> Tuple[bytes, bytes, Dict[int, Any]]:
     tr = good.find(b"trailer", xr)
     m = re.compile(rb"startxref[\r\n]+(\d+)").search(good, sx)
     dmg = dc["damage"]
-    if dmg == "startxref-num":
+    if dmg == "startxref-num" and dc.get("startxref_value") is not None:
+        bad[m.start(1):m.end(1)] = str(dc["startxref_value"]).encode()      # corpus files pin the offset itself
+    elif dmg == "startxref-num":
         if arg % 3 == 0:
             # land on the start of some integer of the file (read_xref_from then takes the xref-stream branch)
             starts = [mm.start() for mm in re.finditer(rb"(?<![0-9])[0-9]", good)]
+            # ... preferably one shortly before a `stream` keyword (inside or at the end of a stream dictionary,
+            # e.g. the `n 0 R` of an indirect /Length): the tokens from there to `stream` are not a stream object
+            near = [p for p in starts if 0 <= good.find(b"stream", p) - p < 60]
+            if near and (arg // 3) % 2 == 0:
+                starts = near
             new = str(starts[(arg // 3) % len(starts)]).encode()
         elif arg % 3 == 1:
             # land inside the cross-reference section itself (its tail parses as an empty table)
@@ -938,7 +1022,7 @@ def build_damaged(dc: Dict[str, Any]) -> Tuple[bytes, bytes, Dict[int, Any]]:
         for mm in re.finditer(rb"(\d{10}) (\d{5}) n", good[xr:tr]):
             v = int(mm.group(1)) + delta
             bad[xr + mm.start(1):xr + mm.end(1)] = b"%010d" % v
-    return good, bytes(bad), plain
+    return good, bytes(bad), plain, layout
 
 
 def extract_text_impl(data: bytes) -> str:
@@ -953,7 +1037,7 @@ def extract_text_impl(data: bytes) -> str:
 
 
 def check_damaged(ctx: Optional[C.Ctx], dc: Dict[str, Any], bufsiz: int = 4096):
-    good, bad, objs = build_damaged(dc)
+    good, bad, objs, _layout = build_damaged(dc)
     nums = sorted(objs)
     exp = {n: canon_pdf(objs[n]) for n in nums}
     with BufSiz(bufsiz):
@@ -1023,34 +1107,28 @@ def tie_damaged(ctx: C.Ctx, dc: Dict[str, Any], bufsiz: int) -> None:
     import re
     if ctx.driver is None:
         return
-    good, bad, _objs = build_damaged(dc)
+    good, bad, _objs, layout = build_damaged(dc)
+    line_re = re.compile(rb"[^\r\n]*(?:\r\n|\r|\n)")
     for label, data in (("good", good), ("bad", bad)):
         lines = ["reset", "data " + C.hx(data)]
-        for m in re.finditer(rb"(?:(?<=[\r\n])|^)(\d+) (\d+) obj", data):
-            end = data.find(b"endobj", m.start()) + 6
-            lines.append(f"obj {m.start()} {int(m.group(1))} {int(m.group(2))} p1")
-            lines.append(f"end {m.start()} {end}")
-        # the body as items (plain lines / objects) up to the trailer line: hypothesis of C02_fallback
-        heads = {m.start(): m for m in re.finditer(rb"(?:(?<=[\r\n])|^)(\d+) (\d+) obj", data)}
-        line_re = re.compile(rb"[^\r\n]*(?:\r\n|\r|\n)")
+        starts = {}
+        for o in layout["objects"]:       # the body is untouched by the damage: same offsets in both files
+            lines.append(f"obj {o['pos']} {o['n']} {o['gen']} p1")
+            lines.append(f"end {o['pos']} {o['end']}")
+            starts[o["pos"]] = o
+        # the body as items (plain lines / whole objects) up to the trailer line: hypothesis of C02_fallback
         pos = 0
-        tr_line = None
         while pos < len(data):
+            if pos in starts:
+                o = starts[pos]
+                lines.append("item o %d %d %s" % (o["n"], o["gen"], C.hx(data[pos:o["end"]])))
+                pos = o["end"]
+                continue
             lm = line_re.match(data, pos)
-            if lm is None:
+            if lm is None or lm.group(0).startswith(b"trailer"):
                 break
-            ln = lm.group(0)
-            if ln.startswith(b"trailer"):
-                tr_line = pos
-                break
-            if pos in heads:
-                end = data.find(b"endobj", pos) + 6
-                lines.append("item o %d %d %s %s" % (int(heads[pos].group(1)), int(heads[pos].group(2)),
-                                                   C.hx(ln), C.hx(data[pos + len(ln):end])))
-                pos = end
-            else:
-                lines.append("item l " + C.hx(ln))
-                pos = lm.end()
+            lines.append("item l " + C.hx(lm.group(0)))
+            pos = lm.end()
         nset = len(lines)
         sx = data.rfind(b"startxref")
         xr = data.rfind(b"xref", 0, sx)
@@ -1104,6 +1182,20 @@ def report_damaged(ctx: C.Ctx, dc: Dict[str, Any], r, bufsiz: int) -> None:
         r2 = check_damaged(None, c, bufsiz)
         if r2 is not None and r2[0] == what:
             cur = c
+    for k in list(cur.get("layouts", {})):
+        for key in list(cur["layouts"][k]):
+            c = json.loads(json.dumps(cur))
+            del c["layouts"][k][key]
+            r2 = check_damaged(None, c, bufsiz)
+            if r2 is not None and r2[0] == what:
+                cur = c
+    for key, val in (("gens", {}), ("order_seed", 0), ("full", True), ("flate", False)):
+        if cur.get(key, val) != val:
+            c = json.loads(json.dumps(cur))
+            c[key] = val
+            r2 = check_damaged(None, c, bufsiz)
+            if r2 is not None and r2[0] == what:
+                cur = c
     while len(cur["texts"]) > 1:
         c = json.loads(json.dumps(cur))
         c["texts"].pop()
@@ -1164,6 +1256,11 @@ def run_history_cases(ctx: C.Ctx) -> None:
             ctx.branch("form:" + p["form"])
         ctx.branch("eol:" + repr(case["eol"]))
         ctx.branch("tail:" + case["tail"])
+        for lays in case.get("layouts", []):
+            for lay in lays.values():
+                for key, val in lay.items():
+                    if key != "length_first":
+                        ctx.branch("layout:%s=%s" % (key, val))
         if case["plans"][0].get("self_prev"):
             ctx.branch("circular-prev")
         for sec in layout["sections"]:
@@ -1197,6 +1294,10 @@ def run_damaged_cases(ctx: C.Ctx) -> None:
         dc = gen_damaged(rng)
         b = rng.choice([4096, 4096, 16, 7, 3])
         ctx.case(("dmg", json.dumps(dc, sort_keys=True), b), True, branch="damage:" + dc["damage"])
+        for lay in dc.get("layouts", {}).values():
+            for key, val in lay.items():
+                if key != "length_first":
+                    ctx.branch("damaged-layout:%s=%s" % (key, val))
         r = check_damaged(ctx, dc, b)
         if r is not None:
             report_damaged(ctx, dc, r, b)
